@@ -13,9 +13,11 @@ import (
 	"hash/fnv"
 	"os"
 	"path/filepath"
+	"regexp"
 	"runtime"
 	"sort"
 	"strings"
+	"sync"
 	"sync/atomic"
 	"time"
 
@@ -75,6 +77,8 @@ type Def struct {
 func register(name string, d Def) {
 	drivers[name] = func(c *Ctx) (*Meta, error) {
 		c.debugRotate = d.Debug
+		initLongNames(c)
+		initShorts(c)
 		var cases []Case
 		if c.Replay != "" {
 			b, err := os.ReadFile(c.Replay)
@@ -226,6 +230,31 @@ func stdinModeFor(args []string, stdin []byte) string {
 // spellings of the same request, and repeated --chord / --attr may be given as one comma-separated list
 var valueFlags = map[string]string{"key": "k", "output": "o", "root": "r", "target": "t", "command": "c", "maxDegree": "d", "bpm": "", "meter": "", "velocity": "",
 	"track": "", "program": "", "instrument": "", "attr": "", "chord": ""}
+
+// The one-letter forms are read off the binary's own help texts (`-k, --key string`): a crd that frees or renames one
+// is not held to the table above.
+var shortsOnce sync.Once
+
+func initShorts(c *Ctx) {
+	shortsOnce.Do(func() {
+		seen, got := map[string]string{}, false
+		re := regexp.MustCompile(`(?m)^\s+-(\w), --(\w+)`)
+		for _, cmd := range [][]string{{"write", "--help"}, {"info", "key", "conv", "--help"}, {"info", "attr", "describe", "--help"}, {"gen", "attr", "--help"}, {"text", "parse", "--help"}} {
+			r := c.crdEnv(cmd, nil, nil, 20*time.Second)
+			for _, m := range re.FindAllStringSubmatch(string(r.Stdout)+string(r.Stderr), -1) {
+				seen[m[2]], got = m[1], true
+			}
+		}
+		if !got {
+			return
+		}
+		for name, short := range valueFlags {
+			if short != "" {
+				valueFlags[name] = seen[name]
+			}
+		}
+	})
+}
 
 // respell rewrites the flag spellings of a request as chosen by its hash (five requests in eight keep theirs)
 func respell(args []string, h uint32) []string {
